@@ -33,7 +33,7 @@ func init() {
 			}
 		}
 	}
-	req = append(req, "bitmap/empty", "bitmap/all-zero", "bitmap/all-one", "index/trailing", "index/no-trailing", "index/rebuilt-after-in-place-update", "ones>=32768", "ones>=65536", "words>=65536")
+	req = append(req, "bitmap/empty", "bitmap/all-zero", "bitmap/all-one", "index/trailing", "index/no-trailing", "index/rebuilt-after-in-place-update", "ones>=32768", "ones>=65536", "words>=65536", "arguments-in-read-only-memory")
 	register(&mon.Prop{
 		ID:    "C01",
 		Level: "exploration",
@@ -172,6 +172,42 @@ func c01Check(w *mon.W, words []uint64) bool {
 	if !gIdx() || !gIdxT() || !gIdx128() || !eqI32(qIdx, idx) || !eqI32(qIdxT, idxT) || !eqI32(qIdx128, idx128) {
 		w.Fail("Rank/wrote-to-or-outside-the-index-argument", d(mon.D{"what": "the rank index passed to Rank64/Rank128, or the poison next to it, changed during the queries"}))
 		return false
+	}
+	// the bitmap and its indexes in memory that cannot be written (ro.go): same indexes, same answers, no fault
+	if w.Idx()%4 == 2 && nw > 0 {
+		roReset(w)
+		rw, r64, r64t, r128 := roWords(w, orig), roI32(w, idx), roI32(w, idxT), roI32(w, idx128)
+		if release, ok := roSeal(w); ok {
+			w.Op = "IndexRank64(read-only bitmap)"
+			a, b := bitmap.IndexRank64(rw), bitmap.IndexRank64(rw, true)
+			w.Op = "IndexRank128(read-only bitmap)"
+			c := bitmap.IndexRank128(rw)
+			if !eqI32(a, idx) || !eqI32(b, idxT) || !eqI32(c, idx128) {
+				release()
+				w.Fail("Index/differs-on-read-only-bitmap", d(mon.D{}))
+				return false
+			}
+			step := 1
+			if total > 512 {
+				step = total/512 | 1
+			}
+			for i := 0; i < total; i += step {
+				w.Op, w.A = "Rank64(read-only bitmap and index)", int64(i)
+				c1, b1 := bitmap.Rank64(rw, r64, int32(i))
+				c2, b2 := bitmap.Rank64(rw, r64t, int32(i))
+				w.Op = "Rank128(read-only bitmap and index)"
+				c3, b3 := bitmap.Rank128(rw, r128, int32(i))
+				e1, f1 := bitmap.Rank64(words, qIdx, int32(i))
+				if c1 != e1 || c2 != e1 || c3 != e1 || b1 != f1 || b2 != f1 || b3 != f1 {
+					release()
+					w.Fail("Rank/differs-on-read-only-arguments", d(mon.D{"i": i, "got64": []int32{c1, b1}, "got64_trailing_index": []int32{c2, b2}, "got128": []int32{c3, b3}, "expected": []int32{e1, f1}}))
+					return false
+				}
+			}
+			release()
+			w.Eval(3 + 3*int64((total+step-1)/step))
+			w.Bucket("arguments-in-read-only-memory")
+		}
 	}
 	// the caller updates the bitmap IN PLACE (same backing array, same length) and indexes it again,
 	// repeating the builder calls in reverse order so that each one directly follows a call of the
